@@ -102,6 +102,8 @@ Definition mstep (m : mon) (o : obs) : mon :=
      time-out once sndUna is beyond the sequence numbers outstanding at that time-out *)
   let enter := third && (negb (m_recov m) || (m_lastRto m && lessThan (m_rp m) (sndUna sp))) in
   let badC := enter && negb rexmitUna in
+  (* (c0) "otherwise it is retransmitted by timeout": fewer than three duplicates retransmit nothing *)
+  let badC0 := isdupS && (dups' <? 3) && negb (frActive sp) && rexmitUna in
   (* (c2) partial ACK inside that recovery: pure ACK, same window, advances sndUna, not beyond the recovery point *)
   let partial := match o_ev o with
                  | ESeg sg _ => m_infr m && procd prev sg && pureAck sg && (swnd prev sg =? sndWnd sp) &&
@@ -129,7 +131,7 @@ Definition mstep (m : mon) (o : obs) : mon :=
   let badE := (rto sc <? 200000000) || (cwnd sc <? 1) || (ssthresh sc <? 2) in
   let bad' := if negb (m_bad m =? 0) then m_bad m
               else if badA then 1 else if badB then 2 else if badC then 3 else if badC2 then 4
-              else if badD then 5 else if badE then 6 else 0 in
+              else if badD then 5 else if badE then 6 else if badC0 then 7 else 0 in
   let tag' := orTag (orTag (orTag (orTag (orTag (orTag (orTag (m_tag m)
                 (if 0 <? nData fs then 1 else 0))
                 (if enter then 2 else 0))
@@ -146,7 +148,7 @@ Definition monitor (c : case) : mon :=
   match c with CTrace _ _ init steps => fold_left mstep steps (mon0 init) end.
 
 (* clause that failed (1 initial window, 2 in flight, 3 fast retransmit, 4 partial ACK,
-   5 time-out, 6 floors); for diagnosis *)
+   5 time-out, 6 floors, 7 retransmission on fewer than three duplicates); for diagnosis *)
 Definition spec_clause (c : case) : Z := m_bad (monitor c).
 
 (* 0 = satisfied, 1 = violated (no known-finding pattern is excused by this monitor) *)
